@@ -75,8 +75,15 @@ def gen_str(r, maxlen=None, printable=False):
     n = r.choice(STR_LENS)
     if maxlen is not None:
         n = min(n, maxlen)
+    if r.random() < 0.2:
+        # text outside 7-bit ASCII (2-, 3- and 4-byte UTF-8 sequences): characters != bytes
+        return r.choice(NON_ASCII)[: maxlen if maxlen is not None else None]
     lo, hi = (32, 126) if printable else (0, 127)
     return "".join(chr(r.randint(lo, hi)) for _ in range(n))
+
+
+NON_ASCII = ["\u00b0C", "\u00e9a", "\u00b5V", "m\u03a9", "\u03a9", "m/s\u00b2", "a\u00b0", "\u20acuro", "\u65e5\u672c\u8a9e", "\u00df", "\U0001f600", "x\U0001f600y",
+             "\u00e9" * 9, "na\u00efve caf\u00e9"]
 
 
 def gen_value(r, sch, t, mode="random", opts=None):
@@ -131,7 +138,7 @@ def gen_value(r, sch, t, mode="random", opts=None):
         if mode == "max":
             return "".join(chr(32 + (i * 7) % 95) for i in range(300 if opts.get("big") else 40))
         if mode == "asym":
-            return "hello, wire!"
+            return "h\u00e9llo, wire \u00b0C!"
         return gen_str(r, printable=opts.get("printable", False))
     if k == "enum":
         vals = [v for _, v in sch.enums[t[1]]]
